@@ -112,7 +112,13 @@ class Ocp(Stage):
             self._transcribe_recurse(phase=1,**kwargs)
             self._original._set_transcribed(True)
 
-            self._transcribe_recurse(phase=2,placeholders=self.placeholders_transcribed,**kwargs)
+            try:
+                self._transcribe_recurse(phase=2,placeholders=self.placeholders_transcribed,**kwargs)
+            except:
+                # A specification error found while filling in placeholders: the half-built
+                # NLP must not be mistaken for a finished transcription by the next solve
+                self._original._set_transcribed(False)
+                raise
     
     def _untranscribe(self,**kwargs):
         if self.is_transcribed:
